@@ -851,3 +851,28 @@ package query
 //@   property C19
 //@   safety
 
+
+// C08 / C14: data-changing statements work on copies whose record spines are fresh; the cells (the []value.Primary
+// behind every field) are shared with the cached table, open cursors and restore points, so no statement may store
+// into an existing cell: every store into cell storage must hit a cell allocated by the statement itself.
+//@ func Update
+//@   property C14 C08
+//@   ownwrites E:value.Primary#
+//@ func Insert
+//@   property C14 C08
+//@   ownwrites E:value.Primary#
+//@ func Replace
+//@   property C14 C08
+//@   ownwrites E:value.Primary#
+//@ func Delete
+//@   property C14 C08
+//@   ownwrites E:value.Primary#
+//@ func AddColumns
+//@   property C14 C08
+//@   ownwrites E:value.Primary#
+//@ func DropColumns
+//@   property C14 C08
+//@   ownwrites E:value.Primary#
+//@ func RenameColumn
+//@   property C14 C08
+//@   ownwrites E:value.Primary#
